@@ -75,8 +75,11 @@ def expected_distance(s, group):
         return None
     if group == 5:
         m = codes().PAT_RELAYS.match(s)
-        if m.group(3) and m.group(2).isdigit() and m.group(2).isascii():
-            return int(m.group(2))
+        if m.group(3) and m.group(3).isascii():
+            # leg distance in metres: number x unit (none or H: metres, K: kilometres, M: miles)
+            q = float(m.group(3))
+            suf = m.group(2)[len(m.group(3)):].upper()
+            return int(q * {'': 1, 'H': 1, 'K': 1000, 'M': 1609}[suf])
     return None
 
 
@@ -289,6 +292,9 @@ def main(tier, seed):
         run.add_function(instrument(getattr(u, n)))
     run.add_function(instrument(real_module('athlib.athlon_score').unit_name))
     regex_obligations(run)
+    from pyvc.frames import frame_obligations
+    frame_obligations(run, [u.discipline_sort_key, u.text_discipline_sort_key, u.sort_by_discipline, u.get_distance, u.get_duration_event_time,
+                            real_module('athlib.athlon_score').unit_name, real_module('athlib.wma.agegrader').AgeGrader.event_code_to_kind])
     lang = language()
     step = 4000
     J = [('chunk', lang[i:i + step]) for i in range(0, len(lang), step)] + [('pairs', seed, lang)]
